@@ -44,7 +44,7 @@ def fmt_problem(v):
     out = [f"--- {v['kind']}  sig={v['sig']}"]
     if "prog" in v:
         out.append(fmt_prog(v["prog"]))
-    if v["kind"] == "trace-rejected":
+    if v["kind"] == "trace-rejected" and "matched" in v:
         m = v["matched"]
         evs = v["events"]
         lo = max(0, m - 14)
@@ -347,6 +347,102 @@ def run_c16(tier):
     return finish("C16", tier, t0, spec, totals, [], problems, [{"vector": v} for v in sample], known, extra_cov=extra)
 
 
+def run_c09(tier):
+    """DFS: the real DfsScheduler against the independently enumerated choice tree on a grid of
+    iteration / step bounds, its call log against Dfs.tla, and Dfs.tla against all small trees."""
+    t0 = time.time()
+    vlib.build_harness()
+    known = vlib.load_known()
+    n = 8 if tier == "quick" else 60
+    cap = 1500 if tier == "quick" else 30000
+    progs = []
+    for fam in ("kernel", "mutex", "mpsc", "park", "kernel_rand", "condvar"):
+        progs += [dict(p, id=p["id"] + 10000 * i) for i, p in enumerate([]) ] or []
+        fp = gen.family(fam, n, vlib.seed())
+        for p in fp:
+            p["id"] = len(progs) + 1
+            progs.append(p)
+    import corpus
+    for p in corpus.get("corpus_deadlock")[:5]:
+        p = dict(p)
+        p["id"] = len(progs) + 1
+        progs.append(p)
+    out = os.path.join(vlib.WORK, f"run-c09-{tier}")
+    meta, t_enum = vlib.run_enum(progs, out, cap=cap, extra=("--mode", "dfs"))
+    by_id = {p["id"]: p for p in progs}
+    problems = []
+    nrun = nexec = ncmp = 0
+    sample = None
+    for m in meta:
+        if m.get("crashed"):
+            problems.append({"kind": "harness-crash", "prog": by_id[m["prog"]], "stderr": m["stderr"], "sig": "dfs/harness-crash"})
+            continue
+        for r in m.get("runs", []):
+            nrun += 1
+            W = [tuple(x) for x in r["walker"]]
+            D = [tuple(x) for x in r["dfs"]]
+            nexec += len(D)
+            ncmp += len(W)
+            cfg = f"maxiter={r['maxiter']},stepbound={r['stepbound']}"
+            def bad(kind, detail):
+                problems.append({"kind": "dfs-mismatch", "prog": by_id[m["prog"]], "detail": {"config": cfg, "what": detail,
+                                 "walker": r["walker"][:12], "dfs": r["dfs"][:12]}, "sig": f"dfs/{kind}/" + ("iter" if r["maxiter"] is not None else "") + ("step" if r["stepbound"] is not None else "")})
+            if len(set(D)) != len(D):
+                bad("repeated-schedule", "a schedule was executed twice")
+            if not set(D) <= set(W):
+                bad("unknown-schedule", "DFS executed a schedule that is not a leaf of the choice tree")
+            want = len(set(W)) if r["maxiter"] is None else min(r["maxiter"], len(set(W)))
+            if len(D) != want:
+                bad("wrong-count", f"{len(D)} executions, expected {want}")
+            if r["maxiter"] is None and set(D) != set(W):
+                bad("skipped-schedule", "a leaf of the choice tree was never executed")
+            if len(set(r["seeds"])) > 1:
+                bad("data-seed-varies", "executions used different data seeds")
+            rn = r["rnds"]
+            for a in rn:
+                for b in rn:
+                    k = min(len(a), len(b))
+                    if a[:k] != b[:k]:
+                        bad("data-stream-varies", "two executions drew different random values at the same position")
+                        break
+            if sample is None and len(D) > 2:
+                sample = {"program": by_id[m["prog"]], "config": cfg, "dfs_schedules": r["dfs"][:6]}
+    # call logs against Dfs.tla
+    logf = os.path.join(out, "dfslog.ndjson")
+    nlines = 0
+    with open(logf, "w") as o:
+        for i in range(len(progs)):
+            pth = os.path.join(out, f"p{i}.dfslog")
+            if os.path.exists(pth):
+                for line in open(pth):
+                    o.write(line)
+                    nlines += 1
+    res = vlib.run_tlc("TraceDfs", "TraceDfs.cfg", {"DFSLOG": logf}, out, workers=1, timeout=1200)
+    acc = [int(x) for x in vlib.tlc_lines(res["out"], "DFSLOG-ACCEPTED")]
+    if not res["ok"] or not acc or acc[0] != nlines:
+        # find how far the log was explained
+        problems.append({"kind": "trace-rejected", "where": "TraceDfs", "detail": {"log_lines": nlines, "states": res["states"],
+                         "first_unexplained_line": res["states"], "errors": res["errors"][:3]}, "sig": "dfs/call-log-rejected"})
+    states, trans = res["states"], res["transitions"]
+    lem = []
+    cfgs = ["Dfs", "Dfs_iter", "Dfs_step", "Dfs_iterstep"] + (["Dfs_d3a3"] if tier == "thorough" else [])
+    for c in cfgs:
+        wd = vlib.fresh_dir(os.path.join(vlib.WORK, "lemma-" + c))
+        r = vlib.run_tlc("Dfs", c + ".cfg", {}, wd, workers=12, timeout=1500)
+        states += r["states"]
+        trans += r["transitions"]
+        lem.append({"lemma": c, "states": r["states"], "holds": r["ok"]})
+        if not r["ok"]:
+            problems.append({"kind": "tlc-error", "where": c, "errors": r["errors"][:5], "sig": f"lemma/{c}", "out": r["out"]})
+    totals = {"trace_states": states, "trace_transitions": trans, "leaves_reached": nexec, "programs": len(progs)}
+    extra = {"dfs_runs": nrun, "dfs_executions": nexec, "walker_leaves_compared": ncmp, "call_log_lines": nlines,
+             "model_lemmas": lem, "exhaustive": False,
+             "checker_cmd": "tlc -config Dfs.cfg Dfs.tla ; tlc -config TraceDfs.cfg TraceDfs.tla"}
+    spec = {"assume": ["choice trees measured by the independent walker scheduler under the same Config",
+                       "Dfs.tla explored over all trees of depth<=4/arity<=2 (and depth<=3/arity<=3 in the thorough tier)"]}
+    return finish("C09", tier, t0, spec, totals, [], problems, [sample] if sample else [{"note": "no sample"}], known, extra_cov=extra)
+
+
 def run_lemmas(pid, problems):
     """Model-only checks (binding D) attached to a property; returns (states, transitions, report)."""
     st = tr = 0
@@ -370,6 +466,8 @@ LEMMAS = {
 }
 # anti-vacuity: deliberately broken variants must be refuted (run by `vcheck setup`)
 SELFTESTS = [
+    {"name": "dfs-mutant-last-flag", "module": "Dfs", "cfg": "Dfs_mut1.cfg", "expect_ok": False, "env": {}},
+    {"name": "dfs-mutant-no-truncate", "module": "Dfs", "cfg": "Dfs_mut2.cfg", "expect_ok": False, "env": {}},
     {"name": "replay-broken-skip-same", "module": "Replay", "cfg": "Replay.cfg", "expect_ok": False,
      "env": {"PROGS": os.path.join(vlib.VERIF, "corpus", "replay.ndjson"), "BROKEN": "skip_same"}},
     {"name": "replay-broken-no-marker", "module": "Replay", "cfg": "Replay.cfg", "expect_ok": False,
@@ -380,6 +478,8 @@ SELFTESTS = [
 def run_property(pid, tier):
     if pid == "C16":
         return run_c16(tier)
+    if pid == "C09":
+        return run_c09(tier)
     if pid not in SHUTTLE_PROPS:
         raise vlib.ToolError(f"no check registered for {pid}")
     t0 = time.time()
